@@ -149,6 +149,27 @@ def raw_sql_pipelines():
     return [{"table": "d", "special": n, "steps": []} for n in ("sqlnode_concat", "sqlnode_join", "sqlnode_same_twice", "sqlnode_concat_extend")]
 
 
+def shared_step_in_two_column_orders():
+    """one limited, ordered sub-pipeline S used twice as a member of a union, once where the union's column order
+    is (g, x, y) and once where it is (y, x, g): union members are read by position"""
+    out = []
+    for lim in (2, 1):
+        S = {"op": "order_rows", "columns": ["x"], "reverse": [], "limit": lim}
+        rev = {"op": "select_columns", "columns": ["y", "x", "g"]}
+        for idc in (None, "src"):
+            out.append(
+                {
+                    "table": "d",
+                    "steps": [
+                        S,
+                        {"op": "concat_rows", "b": {"prefix": 0}, "id_column": None},
+                        {"op": "concat_rows", "b": {"prefix": 0, "steps": [rev, {"op": "concat_rows", "b": {"prefix": 1}, "id_column": None}]}, "id_column": idc},
+                    ],
+                }
+            )
+    return out
+
+
 def build_special(name):
     from data_algebra.view_representations import SQLNode
 
@@ -234,7 +255,7 @@ def run(tier):
     depth = 3 if tier == "quick" else 4
     ex = explorer.Explorer(dag_menu_quick if tier == "quick" else dag_menu)
     states = ex.run(depth)
-    hists = core.rotate([s.hist for s in states] + raw_sql_pipelines(), run.seed)
+    hists = core.rotate([s.hist for s in states] + raw_sql_pipelines() + shared_step_in_two_column_orders(), run.seed)
     for p in core.pmap(work, [(c, tier, list(run.open_findings)) for c in core.chunks(hists, 6)]):
         run.merge(p)
     st = ex.stats()
@@ -249,7 +270,7 @@ def run(tier):
     ]
     return run.finish(
         exhaustive=True,
-        rule=f"every state at depth <= {depth} of the DAG slice (window/plain extends, selections, projections, limits, joins and concatenations with the state's own prefixes as the same object and as a rebuilt copy), plus 4 pipelines over raw SQL nodes used twice, x {len(option_grid(tier))} option settings ({'the full product of the five switches under the default indent plus 4 settings with other indents' if tier == 'quick' else 'the full product of the five switches and three indent strings'}) x 2 dialect texts x all multisets of <= 2 rows",
+        rule=f"every state at depth <= {depth} of the DAG slice (window/plain extends, selections, projections, limits, joins and concatenations with the state's own prefixes as the same object and as a rebuilt copy), plus 4 pipelines over raw SQL nodes used twice and 4 in which one limited, ordered sub-pipeline is a member of two unions with different column orders, x {len(option_grid(tier))} option settings ({'the full product of the five switches under the default indent plus 4 settings with other indents' if tier == 'quick' else 'the full product of the five switches and three indent strings'}) x 2 dialect texts x all multisets of <= 2 rows",
     )
 
 
